@@ -109,7 +109,8 @@ def tebd_controls(inp):
         cc = oqupy.ChainControl([2] * N)
         for sup, site, step, post in order_of_registration:
             cc.add_single_site_control(sup, site, step, post=post)
-        states = [ops.spin_dm('z+'), ops.spin_dm('x+')]
+        # generic states: every control of the schedule (also the pre control of the FIRST step) changes the state it acts on
+        states = [np.array([[0.7, 0.1 - 0.2j], [0.1 + 0.2j, 0.3]]), ops.spin_dm('x+')]
         t = oqupy.PtTebd(initial_augmented_mps=oqupy.AugmentedMPS(states), system_chain=chain, process_tensors=[None] * N,
                          parameters=oqupy.PtTebdParameters(dt=dt, order=2, epsrel=1e-10), dynamics_sites=[0, 1], chain_control=cc, backend_config={})
         r = t.compute(steps, progress_type='silent')
